@@ -191,7 +191,9 @@ impl EagerAggregation {
         let pre_fields = vec![
             SchemaField {
                 name: r_col.name.clone(),
-                data_type: DataType::Int64,
+                // the pre-aggregate's key keeps the column's own type (an
+                // INTEGER key declared as Int64 breaks the join's typed paths)
+                data_type: r_on.data_type(&r_schema).ok()?,
                 nullable: true,
                 relation: None,
             },
@@ -384,7 +386,8 @@ impl EagerAggregation {
         // Pre-aggregate node over R
         let key_field = SchemaField {
             name: "__ea_key".to_string(),
-            data_type: DataType::Int64,
+            // a single unpacked key keeps its own integer type
+            data_type: r_group_expr.data_type(&r_schema).ok()?,
             nullable: true,
             relation: None,
         };
@@ -466,7 +469,7 @@ impl EagerAggregation {
         // Rewrite outer aggregates term by term
         let mut new_aggregates = Vec::with_capacity(agg.aggregates.len());
         for (a, terms) in agg.aggregates.iter().zip(all_terms.iter()) {
-            let new_arg = rebuild_sum_arg(terms, &r_factors)?;
+            let new_arg = rebuild_sum_arg(terms, &r_factors, &join.schema)?;
             let new_sum = Expr::Aggregate {
                 func: AggregateFunction::Sum,
                 args: vec![new_arg],
@@ -646,7 +649,7 @@ fn flatten_factors(e: &Expr, out: &mut Vec<Expr>) {
 
 /// Rebuild a SUM argument from rewritten terms: R factors become their
 /// pre-aggregated sum columns; R-free terms get multiplied by `__ea_cnt`.
-fn rebuild_sum_arg(terms: &[SumTerm], r_factors: &[Expr]) -> Option<Expr> {
+fn rebuild_sum_arg(terms: &[SumTerm], r_factors: &[Expr], schema: &PlanSchema) -> Option<Expr> {
     let cnt_col = Expr::Column(crate::planner::Column {
         relation: None,
         name: "__ea_cnt".to_string(),
@@ -668,7 +671,7 @@ fn rebuild_sum_arg(terms: &[SumTerm], r_factors: &[Expr]) -> Option<Expr> {
             }
         }
         if !had_r {
-            new_factors.push(cast_f64_if_needed(cnt_col.clone(), &term.factors));
+            new_factors.push(cast_f64_if_needed(cnt_col.clone(), &term.factors, schema));
         }
         let mut term_expr = new_factors.pop()?;
         while let Some(f) = new_factors.pop() {
@@ -705,7 +708,21 @@ fn rebuild_sum_arg(terms: &[SumTerm], r_factors: &[Expr]) -> Option<Expr> {
 }
 
 /// Multiply-by-count must not change the term's float typing.
-fn cast_f64_if_needed(cnt: Expr, _factors: &[Expr]) -> Expr {
+fn cast_f64_if_needed(cnt: Expr, factors: &[Expr], schema: &PlanSchema) -> Expr {
+    // An all-integer term stays integer: SUM(int_col) must keep its Int64
+    // result type, which a Float64 count factor would silently change.
+    let all_int = factors.iter().all(|f| {
+        matches!(
+            f.data_type(schema),
+            Ok(DataType::Int8)
+                | Ok(DataType::Int16)
+                | Ok(DataType::Int32)
+                | Ok(DataType::Int64)
+        )
+    });
+    if all_int {
+        return cnt;
+    }
     Expr::Cast {
         expr: Box::new(cnt),
         data_type: DataType::Float64,
